@@ -7,11 +7,13 @@
      {"op":"raw","listdir":"ok"|"ENOENT"|"ESRCH","alive":b,"entries":[…],"files":[hex],"others":[hex]}
          → {"model":{"open_files":…,"num_fds":…}}
      {"op":"io_items","items":[…]}   → {"wf":b,"distinct":b,"render":hex,"model":…,"spec":…}
-     {"op":"io_raw","file":hex|"ENOENT"|"ESRCH" (as {"err":…}),"alive":b} → {"model":…}
+     {"op":"io_raw","file":hex|"ENOENT"|"ESRCH" (as {"err":…}),"alive":b} → {"model":…,"spec":…}
+         (spec = Spec.expectedIoContent for a readable file: ANY content has a promised answer)
 -/
 import PsutilModel.Base.Proto
 import PsutilModel.Model.C14Gen
 import PsutilModel.Spec.C14
+import PsutilModel.Spec.C14Io
 open Lean Psutil Psutil.Proto Psutil.C14
 
 def excName : Exc → String
@@ -188,8 +190,8 @@ def parseItem (j : Json) : R Spec.Item := do
     pure (.badval n v)
   else .error s!"bad item {t}"
 
-def jIo (names : List Bytes) (o : Outcome (List Nat)) : Json :=
-  jOutcome (fun vs => jList (fun nv => Json.arr #[jBytes nv.1, jNat nv.2]) (names.zip vs)) o
+def jIo (names : List Bytes) (o : Outcome (List Int)) : Json :=
+  jOutcome (fun vs => jList (fun nv => Json.arr #[jBytes nv.1, jInt nv.2]) (names.zip vs)) o
 
 /-- the promised exception for an unopenable directory / file, or `null` when nothing is promised -/
 def jErrSpec (alive zombie : Bool) (e : FileErr) : Json :=
@@ -246,16 +248,17 @@ def handle (_ : Unit) (j : Json) : R (Unit × Json) := do
     let hasBad := items.any Spec.Item.isBadval
     return ((), jObj [("wf", Json.bool wf), ("distinct", Json.bool distinct), ("has_badval", Json.bool hasBad),
       ("render", jBytes content),
-      ("model", jIo cfg.pioFields (ioCounters cfg true (.ok content))),
-      ("spec", jIo Spec.documentedFields (Spec.expectedIo items))])
+      ("model", jIo cfg.pioFields (Pio.ioCounters cfg true (.ok content))),
+      ("spec", jIo Spec.documentedFields (Spec.expectedIo items)),
+      ("spec_content", jIo Spec.documentedFields (Spec.expectedIoContent content))])
   else if op == "io_raw" then do
     let alive ← boolF j "alive"
     let zombie ← optBool j "zombie"
     let file ← field j "file" >>= parseRes parseFileErr
     let spec : Json := match file with
       | .err e => jErrSpec alive zombie e
-      | .ok _ => Json.null
-    return ((), jObj [("model", jIo cfg.pioFields (ioCounters cfg alive file zombie)), ("spec", spec)])
+      | .ok content => jIo Spec.documentedFields (Spec.expectedIoContent content)
+    return ((), jObj [("model", jIo cfg.pioFields (Pio.ioCounters cfg alive file zombie)), ("spec", spec)])
   else .error s!"unknown op {op}"
 
 def main : IO Unit := Proto.run () (total handle)
